@@ -5,71 +5,57 @@ import TsV.Model.Generate
 
 `jobsWith σ m` is the list `(crate, data, scoped imports)` that `Generate.run` hands to the back ends in
 multi-file mode, for the collected map `m`; `σ` is the iteration order of the `all_types` hash map, which only the
-re-export fallback of `used_imports` (`firstOther`) looks at.
+re-export fallback of `used_imports` (`firstOther`) looks at — and whose result no longer depends on it.
 -/
 namespace TsV.C06M
 open TsV TsV.Pipeline TsV.Collect
 
-/-! ### the fallback choice `firstOther` -/
+/-! ### the fallback choice `firstOther`
+
+Since the `fix:` commit "resolve a type name imported from several crates the same way in every run" it is the
+candidate crate with the smallest name (`Lemmas/MinByKey.lean`): no hypothesis on the number of candidates. -/
 
 /-- a crate other than `cur` that defines `name` -/
 def cand (cur name : Str) (p : Str × List Str) : Bool := p.1 != cur && p.2.contains name
 
 theorem firstOther_eq (all : List (Str × List Str)) (cur name : Str) :
-    Generate.firstOther all cur name = (all.find? (cand cur name)).map (·.1) := rfl
+    Generate.firstOther all cur name = (minByKey (all.filter (cand cur name))).map (·.1) := rfl
 
-theorem eq_of_length_le_one {α} : ∀ {l : List α}, l.length ≤ 1 → ∀ {x y}, x ∈ l → y ∈ l → x = y
-  | [], _, _, _, hx, _ => by simp at hx
-  | [z], _, x, y, hx, hy => by simp at hx hy; rw [hx, hy]
-  | _ :: _ :: _, h, _, _, _, _ => by simp at h
+/-- hash order of `all_types`: every iteration order finds the same crate -/
+theorem firstOther_perm (all all' : List (Str × List Str)) (cur name : Str) (hp : all.Perm all') :
+    Generate.firstOther all cur name = Generate.firstOther all' cur name :=
+  MinByKey.firstOther_perm all all' cur name hp
 
-/-- hash order of `all_types`: with at most one candidate every iteration order finds the same crate -/
-theorem firstOther_perm (all all' : List (Str × List Str)) (cur name : Str) (hp : all.Perm all')
-    (h1 : (all.filter (cand cur name)).length ≤ 1) :
+theorem AllRel.mem {c : Str} : ∀ {all all' : List (Str × List Str)}, AllRel all all' →
+    ∀ ns, (c, ns) ∈ all → ∃ ns', (c, ns') ∈ all' ∧ ∀ t, t ∈ ns ↔ t ∈ ns'
+  | [], [], _, _, h => by simp at h
+  | x :: t, y :: t', h, ns, hm => by
+    rcases List.mem_cons.1 hm with rfl | hm
+    · have hk : c = y.1 := h.1.1
+      exact ⟨y.2, by rw [hk]; simp, h.1.2⟩
+    · obtain ⟨ns', h1, h2⟩ := AllRel.mem h.2 ns hm
+      exact ⟨ns', List.mem_cons_of_mem _ h1, h2⟩
+  | [], _ :: _, h, _, _ => h.elim
+  | _ :: _, [], h, _, _ => h.elim
+
+theorem AllRel.symm : ∀ {all all' : List (Str × List Str)}, AllRel all all' → AllRel all' all
+  | [], [], _ => trivial
+  | _ :: _, _ :: _, h => ⟨⟨h.1.1.symm, fun t => (h.1.2 t).symm⟩, AllRel.symm h.2⟩
+  | [], _ :: _, h => h.elim
+  | _ :: _, [], h => h.elim
+
+/-- … and so does every order inside the name sets -/
+theorem AllRel.firstOther (cur name : Str) {all all' : List (Str × List Str)} (h : AllRel all all') :
     Generate.firstOther all cur name = Generate.firstOther all' cur name := by
-  rw [firstOther_eq, firstOther_eq]
-  apply find?_map_congr_mem _ _ _ _ (fun _ => hp.mem_iff)
-  intro x hx y hy px py
-  rw [eq_of_length_le_one h1 (List.mem_filter.2 ⟨hx, px⟩) (List.mem_filter.2 ⟨hy, py⟩)]
-
-theorem AllRel.cand {cur name : Str} {x y : Str × List Str} (h : x.1 = y.1 ∧ ∀ t, t ∈ x.2 ↔ t ∈ y.2) :
-    cand cur name x = cand cur name y := by
-  unfold C06M.cand
-  rw [h.1, contains_congr h.2]
-
-theorem AllRel.firstOther (cur name : Str) : ∀ {all all' : List (Str × List Str)}, AllRel all all' →
-    Generate.firstOther all cur name = Generate.firstOther all' cur name
-  | [], [], _ => rfl
-  | x :: t, y :: t', h => by
-    have ih := AllRel.firstOther cur name h.2
-    rw [firstOther_eq, firstOther_eq] at ih ⊢
-    simp only [List.find?_cons, ← AllRel.cand (cur := cur) (name := name) h.1]
-    cases hc : C06M.cand cur name x with
-    | true => simp [h.1.1]
-    | false => exact ih
-  | [], _ :: _, h => h.elim
-  | _ :: _, [], h => h.elim
-
-theorem AllRel.filter_length (cur name : Str) : ∀ {all all' : List (Str × List Str)}, AllRel all all' →
-    (all.filter (C06M.cand cur name)).length = (all'.filter (C06M.cand cur name)).length
-  | [], [], _ => rfl
-  | x :: t, y :: t', h => by
-    have ih := AllRel.filter_length cur name h.2
-    simp only [List.filter_cons, ← AllRel.cand (cur := cur) (name := name) h.1]
-    cases hc : C06M.cand cur name x <;> simp [ih]
-  | [], _ :: _, h => h.elim
-  | _ :: _, [], h => h.elim
-
-/-- for every import of `d` that falls back to the re-export search there is at most one candidate crate -/
-def FallbackOK (all : List (Str × List Str)) (d : ParsedData) : Bool :=
-  d.importTypes.all fun imp =>
-    imp.baseCrate == d.crateName || !takesFallback all imp ||
-      decide ((all.filter (cand d.crateName imp.typeName)).length ≤ 1)
-
-/-- **the hypothesis on hash-order sensitive inputs** (decidable): every crate's import set is unambiguous
-for `resolve_renamed` (`ImportsOK`) and for the re-export fallback of `used_imports` (`FallbackOK`) -/
-def Unambiguous (m : List (Str × ParsedData)) : Bool :=
-  ImportsUnambiguous m && m.all fun p => FallbackOK (allTypes m) p.2
+  apply MinByKey.firstOther_congr_mem
+  intro c
+  constructor
+  · rintro ⟨ns, h1, h2, h3⟩
+    obtain ⟨ns', h4, h5⟩ := h.mem ns h1
+    exact ⟨ns', h4, h2, (h5 name).1 h3⟩
+  · rintro ⟨ns, h1, h2, h3⟩
+    obtain ⟨ns', h4, h5⟩ := h.symm.mem ns h1
+    exact ⟨ns', h4, h2, (h5 name).1 h3⟩
 
 /-! ### the job list -/
 
@@ -102,35 +88,23 @@ theorem mem_reconcile {m : List (Str × ParsedData)} {x : Str × ParsedData} (hx
 
 /-- **the job list is a function of the equivalence class of the collected map** -/
 theorem jobs_congr {m m' : List (Str × ParsedData)} (h : MapEq m m') (wf : MapWF m)
-    (hu : Unambiguous m = true) (σ σ' : List (Str × List Str) → List (Str × List Str))
+    (σ σ' : List (Str × List Str) → List (Str × List Str))
     (hσ : ∀ l, (σ l).Perm l) (hσ' : ∀ l, (σ' l).Perm l) :
     (jobsWith σ m).map jobView = (jobsWith σ' m').map jobView := by
-  unfold Unambiguous at hu
-  simp only [Bool.and_eq_true] at hu
-  have hrec := reconcile_mapEq h wf hu.1
+  have hrec := reconcile_mapEq h wf
   have hall : AllRel (allTypes m) (allTypes m') := allRel_of_mapEq h
   unfold jobsWith
   simp only [List.map_map, allTypes_reconcile]
   apply Rel₂.map_eq hrec
   intro x y hx _ hxy
-  obtain ⟨p, hp, hpi, hpc⟩ := mem_reconcile hx
-  have hfb := List.all_eq_true.1 hu.2 p hp
-  unfold FallbackOK at hfb
   have husd : usedImports x.2 (allTypes m) x.2.importTypes (Generate.firstOther (σ (allTypes m)) x.2.crateName) =
       usedImports y.2 (allTypes m') y.2.importTypes (Generate.firstOther (σ' (allTypes m')) y.2.crateName) := by
     apply usedImports_congr x.2 y.2 hxy.crateName _ _ _ _ _ _ hxy.imports
     intro i hi hne
     apply contrib_congr _ _ _ _ _ hall
-    intro htf
-    have h1 := List.all_eq_true.1 hfb i (hpi ▸ hi)
-    rw [← hpc] at h1
-    have hne' : (i.baseCrate == x.2.crateName) = false := by simpa using hne
-    simp only [hne', htf, Bool.not_true, Bool.or_false, Bool.false_or, decide_eq_true_eq] at h1
-    have h2 : ((allTypes m').filter (cand x.2.crateName i.typeName)).length ≤ 1 := by
-      rw [← hall.filter_length]; exact h1
-    rw [firstOther_perm _ _ _ _ (hσ (allTypes m)) (by rw [((hσ (allTypes m)).filter _).length_eq]; exact h1),
-      hall.firstOther, ← hxy.crateName,
-      firstOther_perm _ _ _ _ (hσ' (allTypes m')) (by rw [((hσ' (allTypes m')).filter _).length_eq]; exact h2)]
+    intro _
+    rw [firstOther_perm _ _ _ _ (hσ (allTypes m)), hall.firstOther, ← hxy.crateName,
+      firstOther_perm _ _ _ _ (hσ' (allTypes m'))]
   obtain ⟨c, d⟩ := x
   obtain ⟨c', d'⟩ := y
   simp only [Function.comp, jobView]
@@ -141,21 +115,17 @@ theorem jobs_congr {m m' : List (Str × ParsedData)} (h : MapEq m m') (wf : MapW
   rw [this]
 
 /-- the hash sets and the recorded errors of the jobs agree as sets / up to order -/
-theorem jobs_sets {m m' : List (Str × ParsedData)} (h : MapEq m m') (wf : MapWF m)
-    (hu : Unambiguous m = true) :
+theorem jobs_sets {m m' : List (Str × ParsedData)} (h : MapEq m m') (wf : MapWF m) :
     Rel₂ (fun p q : Str × ParsedData => (∀ i, i ∈ p.2.importTypes ↔ i ∈ q.2.importTypes) ∧
-      (∀ t, t ∈ p.2.typeNames ↔ t ∈ q.2.typeNames) ∧ p.2.errors.Perm q.2.errors) (reconcile m) (reconcile m') := by
-  unfold Unambiguous at hu
-  simp only [Bool.and_eq_true] at hu
-  exact Rel₂.imp (reconcile_mapEq h wf hu.1) fun _ _ _ _ hr => ⟨hr.imports, hr.typeNames, hr.errors⟩
+      (∀ t, t ∈ p.2.typeNames ↔ t ∈ q.2.typeNames) ∧ p.2.errors.Perm q.2.errors) (reconcile m) (reconcile m') :=
+  Rel₂.imp (reconcile_mapEq h wf) fun _ _ _ _ hr => ⟨hr.imports, hr.typeNames, hr.errors⟩
 
 /-- `check_parse_errors` takes the same branch -/
-theorem allErrors_isEmpty_congr {m m' : List (Str × ParsedData)} (h : MapEq m m') (wf : MapWF m)
-    (hu : Unambiguous m = true) :
+theorem allErrors_isEmpty_congr {m m' : List (Str × ParsedData)} (h : MapEq m m') (wf : MapWF m) :
     (allErrors (reconcile m)).isEmpty = (allErrors (reconcile m')).isEmpty := by
   have hp : (allErrors (reconcile m)).Perm (allErrors (reconcile m')) := by
     unfold allErrors
-    exact Rel₂.flatMap_perm (jobs_sets h wf hu) fun _ _ _ _ hr => hr.2.2
+    exact Rel₂.flatMap_perm (jobs_sets h wf) fun _ _ _ _ hr => hr.2.2
   rw [Bool.eq_iff_iff]
   simp only [List.isEmpty_iff]
   exact ⟨fun e => by rw [e] at hp; exact hp.symm.eq_nil, fun e => by rw [e] at hp; exact hp.eq_nil⟩
